@@ -282,3 +282,84 @@ impl DiskRun {
         Ok((n, self.probes))
     }
 }
+
+/// Workloads for the tombstone log (Trace_TombLog.tla): N keys loaded and flushed, batches of
+/// flushed deletes, re-inserts, restarts, and probes of every key.
+pub struct TombRun {
+    runner: HybridRunner,
+    n: u64,
+    out: Vec<J>,
+}
+
+impl TombRun {
+    pub fn new(mcfg: &MemCfg, hcfg: &HybridCfg) -> Result<Self, String> {
+        let mut runner = HybridRunner::new(mcfg, hcfg)?;
+        runner.apply(&json!({"a": "init"}))?;
+        Ok(Self {
+            runner,
+            n: 0,
+            out: vec![],
+        })
+    }
+
+    pub fn apply(&mut self, op: &J) -> Result<(), String> {
+        let a = op["a"].as_str().ok_or("op without name")?;
+        match a {
+            "load" => {
+                self.n = op["n"].as_u64().ok_or("load without n")?;
+                for k in 1..=self.n {
+                    self.runner.apply(&json!({"a": "ins", "k": k}))?;
+                }
+                self.runner.wait_flush()?;
+                self.runner.apply(&json!({"a": "evict_all"}))?;
+                let log = self.runner.dir().join("foyer-storage-direct-fs-00000000");
+                let pages = std::fs::metadata(&log).map_err(|e| format!("{log:?}: {e}"))?.len() as usize / PAGE;
+                self.out.push(json!({"a": "init", "n": self.n, "pages": pages}));
+            }
+            "del" => {
+                let ks: Vec<u64> = op["ks"].as_array().ok_or("del without ks")?.iter().filter_map(|x| x.as_u64()).collect();
+                // one flushed batch
+                self.runner.apply(&json!({"a": "hold"}))?;
+                for k in ks.iter() {
+                    self.runner.apply(&json!({"a": "rem", "k": k}))?;
+                }
+                self.runner.apply(&json!({"a": "unhold"}))?;
+                self.runner.wait_flush()?;
+                self.out.push(json!({"a": "del", "ks": ks}));
+            }
+            "reins" => {
+                let k = op["k"].as_u64().ok_or("reins without k")?;
+                self.runner.apply(&json!({"a": "ins", "k": k}))?;
+                self.runner.wait_flush()?;
+                self.runner.apply(&json!({"a": "evict_all"}))?;
+                self.out.push(json!({"a": "reins", "k": k}));
+            }
+            "reopen" => {
+                self.runner.apply(&json!({"a": "close"}))?;
+                self.runner.apply(&json!({"a": "reopen"}))?;
+                self.out.push(json!({"a": "reopen"}));
+            }
+            "probe" => {
+                let mut present = vec![];
+                let mut absent = vec![];
+                for k in 1..=self.n {
+                    if self.runner.store_load(k) > 0 { present.push(k) } else { absent.push(k) }
+                }
+                self.out.push(json!({"a": "probe", "present": present, "absent": absent}));
+            }
+            other => return Err(format!("unknown tomb op {other}")),
+        }
+        Ok(())
+    }
+
+    pub fn finish(self, w: &mut impl Write, script: usize) -> std::io::Result<usize> {
+        for (j, ev) in self.out.iter().enumerate() {
+            let mut ev = ev.clone();
+            ev["script"] = json!(script);
+            ev["step"] = json!(j);
+            ev["mis"] = json!(false);
+            writeln!(w, "{ev}")?;
+        }
+        Ok(self.out.len())
+    }
+}
